@@ -12,14 +12,18 @@ package checks
 // same send received on two forks followed by a reorganisation, restarts.
 
 import (
+	"bytes"
 	"fmt"
 	"math/big"
 	"math/rand"
 	"os"
+	"sort"
 
 	g "github.com/zenon-network/go-zenon/chain/genesis/mock"
 	"github.com/zenon-network/go-zenon/chain/nom"
 	"github.com/zenon-network/go-zenon/common/types"
+	"github.com/zenon-network/go-zenon/vm/constants"
+	"github.com/zenon-network/go-zenon/vm/embedded/definition"
 	"github.com/zenon-network/go-zenon/wallet"
 
 	"verif/harness/fw"
@@ -58,7 +62,130 @@ func c04Cases(tier string, seed int64) []string {
 	for i := 0; i < f; i++ {
 		l = append(l, fmt.Sprintf("fork:%d", i))
 	}
+	for i := 0; i < f/2; i++ {
+		l = append(l, fmt.Sprintf("forkp:%d", i))
+	}
 	return l
+}
+
+// c04ForkProducer: the node that switches branches is itself a producer and holds UNCONFIRMED contract receives (its
+// pillar generated them for calls its abandoned momentum confirmed). The adopted branch confirms the same calls
+// plus one more that queues up in front of them. After the switch the node produces the next momentums itself: every
+// call must be received exactly once and in the adopted branch's confirmation order, and other nodes must follow.
+func c04ForkProducer(c *fw.C, caseID string, idx int) {
+	r := c.Rand(caseID)
+	base := c.ScratchDir("c04p")
+	defer os.RemoveAll(base)
+	A := simnet.Open("A", base+"/A", simnet.MockGenesis(), g.PillarKeys)
+	defer A.Stop()
+	wA := simnet.NewWorkload(rand.New(rand.NewSource(r.Int63())), A)
+	wA.ContractWeight = 40
+	for i := 0; i < 8+r.Intn(16); i++ {
+		wA.Step(5)
+		if _, err := A.Produce(0); err != nil {
+			c.Violation("producer-cannot-produce", err.Error())
+			return
+		}
+	}
+	A.MustProduce(2) // drain pending contract receives
+	forkPoint := A.Height()
+	B := simnet.Open("B", base+"/B", simnet.MockGenesis(), g.PillarKeys)
+	defer B.Stop()
+	if err := B.SyncFrom(A, 40); err != nil {
+		c.Violation("sync-failed", err.Error())
+		return
+	}
+	// callers sorted by address: the momentum content (and with it the contract's inbox) is ordered by address
+	callers := []*wallet.KeyPair{g.User1, g.User2, g.User3, g.User4}
+	sort.Slice(callers, func(i, j int) bool { return bytes.Compare(callers[i].Address.Bytes(), callers[j].Address.Bytes()) < 0 })
+	contract, data, zts, amt := types.PlasmaContract, definition.ABIPlasma.PackMethodPanic(definition.FuseMethodName, g.User9.Address), types.QsrTokenStandard, big.NewInt(10*g.Zexp)
+	if idx%3 == 0 {
+		// a call without value: every caller can afford it
+		contract, data, zts, amt = types.PillarContract, definition.ABIPillars.PackMethodPanic(definition.DelegateMethodName, g.Pillar1Name), types.ZnnTokenStandard, big.NewInt(0)
+	} else if idx%3 == 1 {
+		contract, data, zts, amt = types.StakeContract, definition.ABIStake.PackMethodPanic(definition.StakeMethodName, int64(constants.StakeTimeUnitSec)), types.ZnnTokenStandard, big.NewInt(1*g.Zexp)
+	}
+	// branch X: A confirms the calls of the later callers; its pillar generates their receives into A's pool
+	nLate := 1 + r.Intn(3)
+	var shared []*nom.AccountBlock
+	for _, u := range callers[len(callers)-nLate:] {
+		b, err := A.Send(u, contract, zts, amt, data)
+		if err != nil {
+			c.Inconclusive("scripted call refused: " + err.Error())
+			return
+		}
+		shared = append(shared, b)
+	}
+	if _, err := A.Produce(0); err != nil {
+		c.Violation("producer-cannot-produce", err.Error())
+		return
+	}
+	pooled := 0
+	for _, b := range A.Chain.GetAllUncommittedAccountBlocks() {
+		if b.BlockType == nom.BlockTypeContractReceive {
+			pooled++
+		}
+	}
+	c.Count("unconfirmed_contract_receives_on_switching_producer", pooled)
+	// branch Y: one momentum in a later slot, then the same calls plus one by an earlier caller (lands in front)
+	if _, err := B.Produce(1); err != nil {
+		c.Violation("producer-cannot-produce", err.Error())
+		return
+	}
+	for _, b := range shared {
+		if err := B.Bridge.AddAccountBlocks([]*nom.AccountBlock{simnet.CloneBlock(b)}); err != nil {
+			c.Inconclusive("adopted branch refuses the shared call: " + err.Error())
+			return
+		}
+	}
+	if _, err := B.Send(callers[0], contract, zts, amt, data); err != nil {
+		c.Inconclusive("scripted call refused: " + err.Error())
+		return
+	}
+	// confirm them WITHOUT letting B's pillar generate the receives into a further momentum: the receives stay to be
+	// produced by whoever produces next — the switching node
+	if _, err := B.Produce(0); err != nil {
+		c.Violation("producer-cannot-produce", err.Error())
+		return
+	}
+	if B.Height() <= A.Height() {
+		c.Inconclusive("adopted branch is not longer")
+		return
+	}
+	if _, err := A.InsertChain(simnet.CloneBatch(B.Range(forkPoint+1, B.Height()))); err != nil {
+		c.Violation("switch-refused", map[string]interface{}{"err": err.Error()})
+		return
+	}
+	// the switched node produces on
+	for i := 0; i < 3; i++ {
+		if _, err := A.Produce(0); err != nil {
+			c.Violation("switched-producer-cannot-produce", map[string]interface{}{"err": err.Error(), "momentums_after_switch": i})
+			return
+		}
+		l, err := c01PoolLedger(A)
+		if err != nil {
+			c.Violation("ledger-scan-failed", err.Error())
+			return
+		}
+		if !c04Oracle(c, l, "switched producer incl. pool") {
+			return
+		}
+	}
+	F := simnet.Open("F", base+"/F", simnet.MockGenesis(), nil)
+	defer F.Stop()
+	if err := F.SyncFrom(A, 7); err != nil {
+		c.Violation("follower-refuses-switched-producers-momentum", err.Error())
+		return
+	}
+	// all calls received, in order
+	l, err := scan.Scan(F.Mgr.Frontier())
+	if err != nil {
+		c.Violation("ledger-scan-failed", err.Error())
+		return
+	}
+	c04Oracle(c, l, "follower of the switched producer")
+	c.Distinct(fmt.Sprintf("forkp/contract=%s/shared=%d/pooled-receives=%v", contract, nLate, pooled > 0))
+	c.Count("producer_forks", 1)
 }
 
 // c04Oracle applies both ledger oracles. Returns false after reporting a violation.
@@ -164,6 +291,10 @@ func c04Run(c *fw.C, caseID string) {
 	var idx int
 	if n, _ := fmt.Sscanf(caseID, "fork:%d", &idx); n == 1 {
 		c04Fork(c, caseID, idx)
+		return
+	}
+	if n, _ := fmt.Sscanf(caseID, "forkp:%d", &idx); n == 1 {
+		c04ForkProducer(c, caseID, idx)
 		return
 	}
 	r := c.Rand(caseID)
@@ -276,7 +407,7 @@ func c04Attack(c *fw.C, n *simnet.Node, w *simnet.Workload, r *rand.Rand) {
 	case 0: // same account twice in the pool
 		_, e1 := n.Receive(u, h)
 		_, e2 := n.Receive(u, h)
-		c04Note(c, "attack/double-receive-in-pool/" + outcome(e1) + "+" + outcome(e2))
+		c04Note(c, "attack/double-receive-in-pool/"+outcome(e1)+"+"+outcome(e2))
 	case 1: // a foreign account tries to receive it
 		var v *wallet.KeyPair
 		for {
@@ -286,14 +417,14 @@ func c04Attack(c *fw.C, n *simnet.Node, w *simnet.Workload, r *rand.Rand) {
 			}
 		}
 		_, e := n.Receive(v, h)
-		c04Note(c, "attack/foreign-receiver/" + outcome(e))
+		c04Note(c, "attack/foreign-receiver/"+outcome(e))
 	case 2: // receive, confirm, receive again across momentums
 		_, e1 := n.Receive(u, h)
 		if _, err := n.Produce(0); err != nil {
 			return
 		}
 		_, e2 := n.Receive(u, h)
-		c04Note(c, "attack/double-receive-across-momentums/" + outcome(e1) + "+" + outcome(e2))
+		c04Note(c, "attack/double-receive-across-momentums/"+outcome(e1)+"+"+outcome(e2))
 	case 3: // a pooled receive is replaced by a competing block of higher priority at the same height, then the receive is submitted again
 		b1, e1 := n.Receive(u, h)
 		if e1 != nil {
@@ -306,7 +437,7 @@ func c04Attack(c *fw.C, n *simnet.Node, w *simnet.Workload, r *rand.Rand) {
 		// the receive, again, on top of whatever is now the frontier
 		_, e3 := n.Receive(u, h)
 		_, e4 := n.Receive(u, h)
-		c04Note(c, "attack/replace-pooled-receive/" + outcome(e2) + "+" + outcome(e3) + "+" + outcome(e4))
+		c04Note(c, "attack/replace-pooled-receive/"+outcome(e2)+"+"+outcome(e3)+"+"+outcome(e4))
 	case 4: // two competing receives of the SAME send at the same height (different plasma)
 		b1, e1 := n.Receive(u, h)
 		if e1 != nil {
@@ -316,7 +447,7 @@ func c04Attack(c *fw.C, n *simnet.Node, w *simnet.Workload, r *rand.Rand) {
 			Height: b1.Height, PreviousHash: b1.PreviousHash, FusedPlasma: b1.FusedPlasma + 1000}
 		_, e2 := n.Submit(tpl, u)
 		_, e3 := n.Receive(u, h)
-		c04Note(c, "attack/competing-receives-same-height/" + outcome(e2) + "+" + outcome(e3))
+		c04Note(c, "attack/competing-receives-same-height/"+outcome(e2)+"+"+outcome(e3))
 	}
 }
 
